@@ -334,3 +334,121 @@ def check_displaced_removed(ctx, F, rule="E-VNM.displace.nonempty"):
                                 "the removal of the displaced name from `index` is reachable on the `prev.is_empty()` edge (or "
                                 "not guarded by that test): a non-empty old name stays in `index` and still maps to the variable"))
     return n
+
+
+def check_add_vars(ctx, F, rule="E-VNM.addvars"):
+    """`Manager::add_vars(k)` and `add_named_vars_from_map(map)` of both managers, interpreted on a model manager with L
+    variables: the level table is resized to L + k, the var/level map extended by k, k unnamed names appended, and the
+    returned range is exactly L..L + k; the from-map fast path (empty manager) resizes to n = map.len(), extends by n,
+    adopts the map and returns 0..n.  The returned range is what callers use as the new variables' numbers."""
+    import tables
+    from lib.interp import Interp, Opaque, StructVal, Enum, Unrecognised, enumerate_runs
+    from tables import OK
+
+    class Rec:
+        def __init__(self, name, **kw):
+            self.name = name
+            self.calls = []
+            self.__dict__.update(kw)
+
+    class D(tables.DDDomain):
+        def __init__(self):
+            super().__init__(F, tables.BDD)
+            self.md = []
+
+        def field(self, it, v, n):
+            if isinstance(v, Rec) and hasattr(v, n):
+                return getattr(v, n)
+            return None
+
+        def field_assign(self, it, base, n, v):
+            if isinstance(base, Rec):
+                setattr(base, n, v)
+                return True
+            return False
+
+        def call(self, it, name, f, args_e, env, e):
+            n = f.get("n", "")
+            if n.endswith("pre_reorder_mut") or n.endswith("post_reorder_mut"):
+                [it.ev(a, env) for a in args_e]
+                self.md.append(n.rsplit("::", 1)[-1])
+                return ()
+            if n.endswith("Mutex::<R, T>::new") or n.endswith("::new") or n.endswith("default"):
+                [it.ev(a, env) for a in args_e]
+                return Opaque("level")
+            return super().call(it, name, f, args_e, env, e)
+
+        def call_value(self, it, fv, args):
+            return Opaque("level")
+
+        def method(self, it, m, e, env):
+            name = m.rsplit("::", 1)[-1]
+            recv = it.recv(e, env)
+            if isinstance(recv, list):
+                if name == "len":
+                    return len(recv)
+                if name == "resize_with":
+                    n_, _ = it.args(e, env)
+                    del recv[n_:]
+                    while len(recv) < n_:
+                        recv.append(Opaque("level"))
+                    return ()
+            if isinstance(recv, Rec):
+                args = it.args(e, env)
+                recv.calls.append((name, [a for a in args if not isinstance(a, Rec)]))
+                if name == "len":
+                    return recv.n
+                if name == "is_empty":
+                    return recv.n == 0
+                return ()
+            if isinstance(recv, int) and name == "checked_add":
+                (b,) = it.args(e, env)
+                return Enum(tables.SOME, [recv + b])
+            return super().method(it, m, e, env)
+    n = 0
+    for crate in ("oxidd_manager_index", "oxidd_manager_pointer"):
+        fails = []
+        fids = {nm: next((f for f, r in F.fns.items() if f.startswith(crate + "::manager::") and f.endswith("::" + nm)
+                          and (r.get("impl") or {}).get("trait") == "oxidd_core::Manager"), None)
+                for nm in ("add_vars", "add_named_vars_from_map")}
+        if not ctx.anchor(rule, "%s add_vars / add_named_vars_from_map" % crate, all(fids.values())):
+            continue
+        for L, k in ((0, 3), (2, 3), (4, 0)):
+            holder = {}
+
+            def mk(oracle):
+                holder["d"] = D()
+                return Interp(F, holder["d"], oracle)
+            me = Rec("manager", unique_table=[Opaque("level")] * L, var_level_map=Rec("vlm", n=L), var_name_map=Rec("vnm", n=L), data=Rec("data", n=0))
+            for trace, (status, val) in enumerate_runs(mk, lambda it: it.call_fn(fids["add_vars"], [me, k])):
+                n += 1
+                sit = "add_vars(%d) on %d variables" % (k, L)
+                ok = status == "ok" and isinstance(val, StructVal) and val.fields.get("start") == L and val.fields.get("end") == L + k
+                if not ok:
+                    fails.append("%s returns %s %r, expected %d..%d" % (sit, status, val, L, L + k))
+                    continue
+                if len(me.unique_table) != L + k or ("extend", [k]) not in me.var_level_map.calls or ("add_unnamed", [k]) not in me.var_name_map.calls:
+                    fails.append("%s: level table %d long, var/level map calls %r, name map calls %r" %
+                                 (sit, len(me.unique_table), me.var_level_map.calls, me.var_name_map.calls))
+        for nmap in (0, 3):
+            holder = {}
+
+            def mk(oracle):
+                holder["d"] = D()
+                return Interp(F, holder["d"], oracle)
+            me = Rec("manager", unique_table=[], var_level_map=Rec("vlm", n=0), var_name_map=Rec("vnm", n=0), data=Rec("data", n=0))
+            the_map = Rec("map", n=nmap)
+            for trace, (status, val) in enumerate_runs(mk, lambda it: it.call_fn(fids["add_named_vars_from_map"], [me, the_map])):
+                n += 1
+                sit = "add_named_vars_from_map(%d names) on an empty manager" % nmap
+                v = val.args[0] if status == "ok" and isinstance(val, Enum) and val.path == OK else None
+                ok = isinstance(v, StructVal) and v.fields.get("start") == 0 and v.fields.get("end") == nmap
+                if not ok:
+                    fails.append("%s returns %s %r, expected Ok(0..%d)" % (sit, status, val, nmap))
+                    continue
+                if len(me.unique_table) != nmap or ("extend", [nmap]) not in me.var_level_map.calls or me.var_name_map is not the_map:
+                    fails.append("%s: level table %d long, var/level map calls %r, name map adopted: %r" %
+                                 (sit, len(me.unique_table), me.var_level_map.calls, me.var_name_map is the_map))
+        ctx.ob(rule, "%s:%s" % (rule, crate), not fails, "%s add_vars / add_named_vars_from_map: %s" % (crate, " || ".join(fails[:3]) if fails else
+               "tables grow by the number of new variables and the returned range names exactly them"))
+    return n
